@@ -221,6 +221,7 @@ package jrpc2
 //@   invariant[C08:M1] s.ch != nil ==> s.work != nil && !chanclosed(s.work)
 //@   invariant[C07:M4] forall(k string, in(s.used, k) ==> lookup(s.used, k) != nil && k != "")
 //@   invariant[C09:M3] forall(k string, in(s.call, k) ==> slotOpen(lookup(s.call, k)) && lookup(s.call, k).id == k)
+//@   invariant[C09:M3-distinct] forall(k1 string, k2 string, in(s.call, k1) && in(s.call, k2) && k1 != k2 ==> lookup(s.call, k1).ch != lookup(s.call, k2).ch)
 //@   invariant[C08:Q] qlen(fieldaddr(s, inq)) >= 0
 
 //@ immutable Server.mux Server.sem Server.allowP Server.log Server.rpcLog Server.newctx Server.builtin Server.mu Server.used Server.call
@@ -293,3 +294,24 @@ package jrpc2
 //@   modifies monitor(Server, s), fired, chCloses, chSends, chRecvs(ch), held(s.mu)
 //@   ensures !held(s.mu)
 //@   loop 1 invariant !held(s.mu)
+
+// ---------------------------------------------------------------------------
+// Reply interception in the reader (C09, C02)
+// ---------------------------------------------------------------------------
+
+// reqShaped(m): m is a request or notification, not a reply.
+//@ pure reqShaped(m *jmessage) Bool = m != nil && m.M != "" && m.E == nil && m.R == nil
+
+// filterBatchLocked keeps the request-shaped members. A reply-shaped member
+// whose id names an outstanding callback completes that callback (entry
+// removed, then the single write to its slot). On a push-enabled server a
+// reply-shaped member that matches nothing is dropped: it is neither kept (it
+// would be answered as an invalid request) nor answered.
+//@ func (*Server).filterBatchLocked
+//@   requires wfServer(s) && held(s.mu) && Server_mu_inv(s) && forall(i int, 0 <= i && i < len(next) ==> next[i] != nil)
+//@   modifies map(s.call)
+//@   ensures[C09:members] len(result) <= len(next) && forall(i int, 0 <= i && i < len(result) ==> result[i] != nil)
+//@   ensures[C09:drop-unmatched] s.allowP ==> forall(i int, 0 <= i && i < len(result) ==> reqShaped(result[i]))
+//@   ensures[C09:inv] Server_mu_inv(s)
+//@   loop 1 invariant Server_mu_inv(s) && len(keep) <= rangeindex + 1
+//@   loop 1 invariant forall(i int, 0 <= i && i < len(keep) ==> keep[i] != nil && (s.allowP ==> reqShaped(keep[i])))
